@@ -146,11 +146,11 @@ keycmp(const struct attr_data *attr, const struct attr_data *dir,
 	do {
 		p = memrchr(key, '.', len) ?: key - 1;
 		partlen = key + len - p - 1;
-		res = strncmp(attr->template->key, p + 1, partlen);
+		if (strlen(attr->template->key) != partlen)
+			return 1;
+		res = memcmp(attr->template->key, p + 1, partlen);
 		if (res)
 			return res;
-		if (attr->template->key[partlen] != '\0')
-			return 1;
 		attr = attr->parent;
 		if (!attr)
 			return 1;
